@@ -91,6 +91,35 @@ def bridge(kind, repo, build, coqdir):
     return res
 
 
+def shared_headers(repo):
+    """allow.hpp, which the translator trusts by name (insert_allowed -> a_ins, update_allowed -> a_upd): the enum
+    values and the two helpers, as clang reports them, are what the rule table assumes -> (ok, detail)"""
+    import cpp2coq as c
+    inc = os.path.join(repo, "inc")
+    want = {"insert_allowed": "(return (bin & (ref a) (ref insert)))", "update_allowed": "(return (bin & (ref a) (ref update)))"}
+    try:
+        for f, w in want.items():
+            fn = [o for o in c.clang_objs(inc, f, "") if o.get("kind") == "FunctionDecl" and o.get("name") == f]
+            if len(fn) != 1:
+                return False, "%d definitions of cappuccino::%s" % (len(fn), f)
+            ps = [(x.get("name"), c.ty(x)) for x in fn[0]["inner"] if x.get("kind") == "ParmVarDecl"]
+            body = [x for x in fn[0]["inner"] if x.get("kind") == "CompoundStmt"]
+            got = " ".join(c.show(x) for x in c.core(body[0])["a"]) if body else "<no body>"
+            if ps != [("a", "cappuccino::allow")] or got != w:
+                return False, "cappuccino::%s%s is %s, expected %s" % (f, ps, got, w)
+        en = [o for o in c.clang_objs(inc, "allow", "") if o.get("kind") == "EnumDecl" and o.get("name") == "allow"]
+        if len(en) != 1:
+            return False, "enum cappuccino::allow not found"
+        vals = {e["name"]: c.show(c.core(e["inner"][0])) if e.get("inner") else None
+                for e in en[0]["inner"] if e.get("kind") == "EnumConstantDecl"}
+        exp = {"insert": "(int 1)", "update": "(int 2)", "insert_or_update": "(bin | (ref insert) (ref update))"}
+        if vals != exp:
+            return False, "enum allow is %s, expected %s" % (vals, exp)
+    except Exception as e:      # noqa
+        return False, "clang: %s" % e
+    return True, "allow: insert = 1, update = 2, insert_or_update = insert | update; insert_allowed(a) = a & insert; update_allowed(a) = a & update"
+
+
 def coqchk(kind, build, coqdir):
     """independent re-check (coqchk) of the compiled bridge of `kind` and everything it depends on -> (ok, summary)"""
     cls, gmod, bmod = BRIDGES[kind]
